@@ -200,6 +200,9 @@ def gen_shared(tier, seed):
                         if tier == "quick" and private_x and kind not in ("simple", "matrix"):
                             continue
                         yield {"layout": layout, "subset": subset, "axis": axis, "kind": kind, "private_x": private_x}
+    # a member that carries its own parameter constraint: the joint fit includes it
+    for axis in ("y", "x"):
+        yield {"layout": layouts[0], "subset": [0, 2], "axis": axis, "kind": "simple", "private_x": False, "member_constraint": True}
 
 
 def shared_matrix(kind, axis, ref, n=5):
@@ -226,6 +229,8 @@ def shared(inp):
         if inp["private_x"] and k == 1:
             f.add_error("x", 0.12)
         members.append(f)
+    if inp.get("member_constraint"):
+        members[0].add_parameter_constraint(members[0].parameter_names[0], 0.8, 0.2)
     multi = MultiFit(members)
     mats = []
     if inp["kind"] in ("simple", "correlated"):
@@ -269,6 +274,8 @@ def shared(inp):
         V = Vy + (Vx * np.outer(d, d) if any_x else 0)
         res = np.concatenate([ys[k] - FUNCS[s](xs[k], **{nm: v[nm] for nm in members[k].parameter_names}) for k, s in enumerate(layout)])
         exp = float(res @ np.linalg.solve(V, res)) + float(np.linalg.slogdet(V)[1])
+        if inp.get("member_constraint"):
+            exp += ((v[members[0].parameter_names[0]] - 0.8) / 0.2) ** 2
         got_V = np.asarray(multi.total_cov_mat)
         if got_V.shape != V.shape or not np.allclose(got_V, V, rtol=1e-6, atol=1e-9):
             bad = np.argwhere(~np.isclose(got_V, V, rtol=1e-6, atol=1e-9)) if got_V.shape == V.shape else []
@@ -276,7 +283,7 @@ def shared(inp):
             return {"got": "blocks differing: " + str(blk), "expected": "joint covariance", "witness_class": f"total_cov_mat:{axis}:{inp['kind']}:point{step}"}
         got = multi.cost_function_value
         if not np.isclose(got, exp, rtol=1e-7, atol=1e-7):
-            return {"got": got, "expected": exp, "witness_class": f"shared-cost!=joint:{axis}:{inp['kind']}:point{step}"}
+            return {"got": got, "expected": exp, "witness_class": ("member-constraint-dropped:" if inp.get("member_constraint") else "") + f"shared-cost!=joint:{axis}:{inp['kind']}:point{step}"}
         r = names_consistent(multi, members, "shared")
         if r:
             return r
